@@ -220,3 +220,45 @@ func H_C10_requestWhileInitiating() {
 	}
 	zzverif.Assert(vActiveOnChannel(svc, a, b, c) <= 1, "C10.one_active_swap_per_channel_concurrent")
 }
+
+// H_C10_peerMessageKeepsFundedSwapLocked: a maker whose opening transaction is out stays locked on its
+// channel whatever the taker sends next: a cancel or coop_close moves it to its CSV / coop-claim wait (a
+// non-terminal state), the swap stays in the active map, and a new request for the channel is still
+// refused.  Bounds: one message, then one request; no injected faults.
+func H_C10_peerMessageKeepsFundedSwapLocked() {
+	a, b, c := "539268", "845", "1"
+	role, st := rInSender, State_SwapInSender_AwaitClaimPayment
+	if zzverif.Bool("swap_out") {
+		role, st = rOutReceiver, State_SwapOutReceiver_AwaitClaimInvoicePayment
+	}
+	sc := vBuild(role, st, false, 7)
+	w := sc.env.w
+	w.maxFaults = 0
+	w.narrow = sc.sm.Data
+	scid := vScid(a, b, c, zzverif.Bool("existing.colon"))
+	if sc.sm.Data.SwapInRequest != nil {
+		sc.sm.Data.SwapInRequest.Scid = scid
+	} else {
+		sc.sm.Data.SwapOutRequest.Scid = scid
+	}
+	sc.env.store.recs[sc.id] = vSnapshot(sc.sm)
+	sc.env.policy.newSwaps, sc.env.policy.allowed, sc.env.policy.suspicious, sc.env.policy.minMsat = true, true, false, 0
+	zzverif.Unwind(16)
+	msg := stMsgCancel
+	if zzverif.Bool("coop_close") {
+		msg = stMsgCoopClose
+	}
+	sc.vApply(msg)
+	post := sc.vCurrent()
+	if !vIsTerminal(post) {
+		zzverif.Reach("c10.funded_swap_still_open")
+		_, aerr := sc.svc.GetActiveSwap(sc.id)
+		zzverif.Assert(aerr == nil, "C10.unfinished_swap_stays_active")
+		asset, network := vChainFields(false)
+		id := vSwapId("new.id")
+		zzverif.Assume(id.String() != sc.id)
+		m := &SwapOutRequestMessage{ProtocolVersion: 7, SwapId: id, Asset: asset, Network: network, Scid: vScid(a, b, c, zzverif.Bool("new.colon")), Amount: zzverif.U64("new.amount"), Pubkey: zzverif.HexStr("new.pubkey", 33), PremiumLimit: zzverif.I64("new.limit")}
+		sc.svc.OnMessageReceived(vPeer, vHexType(messages.MESSAGETYPE_SWAPOUTREQUEST), vMarshal(m))
+		zzverif.Assert(vActiveOnChannel(sc.svc, a, b, c) <= 1 && vNonTerminalOnChannel(sc, a, b, c) <= 1, "C10.one_swap_per_channel_after_peer_message")
+	}
+}
